@@ -38,32 +38,43 @@ RULE = ("cases = (method, plan, dialogue cut, fault schedule, pre-existing forei
         "non-trivial when at least one firewall command was issued; distinct = distinct (method, dialogue, "
         "faults, prelude)")
 MANIFEST = dict(
-    level_text=("Machine-checked Lean 4 theorems over a model of firewall.main's try/finally (four separately guarded "
-                "restore blocks) and of the nat method's setup_firewall/restore_firewall as command sequences with the "
-                "nonfatal placement read from the source, running against a netfilter environment model with natural "
-                "command failures and a fault schedule: for every plan (both families, DNS, excludes, user/group), every "
-                "dialogue (hence every truncation point) and every set of failing set-up commands (every k) the final "
-                "configuration equals the initial one, foreign chains/rules/instances included (C04_identity, "
-                "C04_nat_truncation, C04_setup_fault, partial-state characterisation C04_nat_setup_prefix_partial / "
-                "C04_nat_restore_from_partial); nothing is issued before GO. tproxy, nft: code model + environment, "
-                "no theorem yet. Tied to the code on every run: the real firewall.main executes in-process against the "
-                "same environment for nat, tproxy and nft (all k enumerated per plan, all cuts of the dialogue, foreign "
-                "rules and a second instance before/during the session) and is diffed command by command with the "
-                "model; an oracle compares the configuration before and after on the real code."),
+    level_text=("Machine-checked Lean 4 theorems (core Lean, no sorry/axiom/native_decide) over a model of firewall.main's "
+                "try/finally (four separately guarded restore blocks) and of setup_firewall/restore_firewall of the nat, "
+                "tproxy and nft methods as command sequences with the nonfatal placement read from the source, running "
+                "against a netfilter/nft environment model with natural command failures and a fault schedule. PROVED, for "
+                "each of nat, tproxy (mangle table, the three chains sshuttle-m/d/t-<port> and the OUTPUT/PREROUTING jumps) "
+                "and nft (table, chains, rules, delete-table undo), for every chain body / subnet list, port, family "
+                "(both halves, IPv6 then IPv4), user/group (nat) and every pre-existing foreign configuration, by "
+                "induction over the command sequence: (1) C04_<m>_setup_prefix_partial - set-up stopped by a fault at any "
+                "command index (any number of faults, initial restore included) leaves the base configuration with a "
+                "partial view of ours laid over it and nothing else touched; (2) C04_<m>_restore_from_partial - "
+                "restore_firewall with naturally behaving commands maps every partial view back to exactly the base "
+                "configuration; (3) C04_<m>_setup_fault / _kth_setup_command_fails / _identity_and_truncation - the whole "
+                "session (every dialogue, hence every truncation point; nothing is issued before GO) ends in exactly the "
+                "initial configuration under every fault schedule over the try body; (4) C04_fresh_{nat,tp,nft}Fresh - "
+                "the specification's `fresh port` implies the freshness hypotheses. Tied to the code on every run: the "
+                "real firewall.main executes in-process against the same environment for nat, tproxy and nft (every k as "
+                "exit status and as OSError, all cuts of the dialogue, foreign rules incl. non-ASCII listings, a second "
+                "instance before/during the session, signals to a real helper process) and is diffed command by command "
+                "with the model; an oracle compares the configuration before and after on the real code."),
     level_note=("Trusted: Lean kernel; the netfilter environment model (thorough tier replays the real code's command "
                 "sequences, partial states included, against real iptables/ip6tables/nft in a network namespace); the "
-                "harness fakes at the subprocess boundary. Theorems cover nat only; tproxy/nft are covered by the "
-                "exhaustive differential run and the oracle. tproxy holds for the repaired code "
-                "(fix commit a1baf82). Commands that cannot be spawned (OSError instead of an exit "
-                "status) are outside the code model and the theorems: every index of set-up and tear-down is injected on "
-                "the real code and decided by the oracle. Tear-down faults: checked by the oracle (other family "
-                "still restored, foreign part untouched, later session starts), not proved. pf: modelled in Lean "
-                "(unvalidated, from the manual pages), not yet driven by the harness. Signals: not a theorem; decided on a real "
+                "harness fakes at the subprocess boundary. The tproxy theorems assume the chain bodies refer to nothing of "
+                "ours except `-j sshuttle-d-<port>` from the tproxy chain (TpBodiesOk; the harness checks it on every body "
+                "the real code emits) and hold for the repaired tproxy.py (fix commit a1baf82: nonfatal on -D/-F; with the "
+                "1.3.0 code C04_tproxy_restore_from_partial does not build). tproxy has no route/rule (`ip rule`) commands "
+                "in firewall.py, so none are modelled. CORRESPONDENCE-ONLY (oracle on the real code, not proved): tear-down "
+                "faults (other family still restored, foreign part untouched, later session starts); commands that cannot "
+                "be spawned (OSError instead of an exit status) - every index of set-up and tear-down is injected; foreign "
+                "commands interleaved with the session (second instance / foreign rules arriving during it); the hosts "
+                "file. pf: modelled in Lean (unvalidated, from the manual pages), not driven by the harness, no theorem. "
+                "Signals: not a theorem; decided on a real "
                 "helper process on every run (real setup_daemon handlers, file-backed packet filter): SIGHUP/SIGPIPE ignored, "
                 "SIGINT/SIGTERM relayed to the client every time they arrive, rules restored once the control channel closes. "
                 "SIGKILL of the helper is outside (nothing can clean up)."),
-    technique="Lean 4 proof (partial-state invariant + frame, Hoare rules over a fault schedule) + in-process differential "
-              "run of the real firewall.main with exhaustive single-fault enumeration",
+    technique="Lean 4 proof (partial-state invariant + frame, Hoare rules over a fault schedule, method-independent layered "
+              "session argument) + in-process differential run of the real firewall.main with exhaustive single-fault "
+              "enumeration",
 )
 DRIVER_TARGETS = ['SshuttleModel.Code.FwSession', 'SshuttleModel.Spec.FwOwned']
 ASSUMPTIONS = [
@@ -1209,6 +1220,18 @@ def run_plan(ctx, box, lean, plan, budget):
     full = mk_case(plan, lines)
     o0 = execute(box, full, lean)
     body = body_tokens(plan.method, o0.log)
+    if plan.method == 'tproxy':
+        # hypothesis TpBodiesOk of the tproxy theorems, evaluated on what the real code appended
+        for argv, _ok in o0.log:
+            if argv[0] in ('iptables', 'ip6tables') and len(argv) > 5 and argv[4] == '-A':
+                chain = argv[5]
+                tgt = PyEnv.parse_rule(argv[6:])[0]
+                m = re.match(r'^C\.sshuttle-([mtd])-\d+$', tgt)
+                if m and not (m.group(1) == 'd' and re.match(r'^sshuttle-t-\d+$', chain)):
+                    ctx.corr_break('C04:tproxy-body', case=full.to_json(), impl=' '.join(argv),
+                                   model='TpBodiesOk: bodies refer to nothing of ours except -j sshuttle-d-<port> '
+                                         'from the tproxy chain',
+                                   note='a hypothesis of the tproxy theorems does not hold of the emitted rules')
     cases = [(full, o0)]
 
     def do(case):
